@@ -44,6 +44,30 @@ theorem crc32Update_append (value : Nat) (a b : Bytes) :
   rw [BitVec.ofNat_toNat, BitVec.setWidth_eq, BitVec.xor_assoc]
   simp
 
+/-- … for every way of cutting the data into blocks (any block size, any sequence of short
+    reads): folding the blocks into the running value gives the CRC of the whole -/
+theorem crc32_chunked (value : Nat) (first : Bytes) (chunks : List Bytes) :
+    chunks.foldl crc32Update (crc32Update value first) = crc32Update value (first ++ chunks.flatten) := by
+  induction chunks generalizing first with
+  | nil => simp
+  | cons c cs ih =>
+    rw [List.foldl_cons, crc32Update_append, ih (first ++ c)]
+    simp [List.append_assoc]
+
+/-- so the burst guarantee does not depend on how the reader happened to block the data:
+    a pristine region that verifies when accumulated block-wise fails to verify, under every
+    other blocking, once ≤ 32 consecutive bits are damaged -/
+theorem chunked_verify_rejects_burst (stored : Nat) (pre post mid1 mid2 : Bytes)
+    (f1 f2 : Bytes) (cs1 cs2 : List Bytes)
+    (e1 : f1 ++ cs1.flatten = pre ++ mid1 ++ post) (e2 : f2 ++ cs2.flatten = pre ++ mid2 ++ post)
+    (hlen : mid1.length = mid2.length) (h4 : mid1.length ≤ 4) (hne : mid1 ≠ mid2)
+    (hb1 : IsBytes mid1) (hb2 : IsBytes mid2)
+    (hok : cs1.foldl crc32Update (crc32Update 0 f1) = stored) :
+    cs2.foldl crc32Update (crc32Update 0 f2) ≠ stored := by
+  rw [crc32_chunked, e1] at hok
+  rw [crc32_chunked, e2, ← hok]
+  exact fun e => crc32_detects_burst pre post mid1 mid2 hlen h4 hne hb1 hb2 0 e.symm
+
 example : crc32 [0x31, 0x32, 0x33, 0x34, 0x35, 0x36, 0x37, 0x38, 0x39] = 0xCBF43926 := by decide +kernel
 example : verify 0xCBF43926 ([0x31, 0x32] ++ [0x33] ++ [0x34, 0x35, 0x36, 0x37, 0x38, 0x39]) = true := by decide +kernel
 
